@@ -57,7 +57,14 @@ def gen(rng):
     m = {'id': 'm', 'version': '1', 'label': 'morph', 'language': 'en', 'email': 'a@b.c', 'license': 'L', 'meta': None,
          'entries': [ent(nm, nm) for nm in names],
          'synsets': [{'id': f'm-ss-{nm}', 'ili': '', 'partOfSpeech': 'n', 'meta': None} for nm in names]}
-    return {'resources': [docs.resource([W['a:1'], W['e:1'], W['b:1'], m], '1.0')],
+    # lexicons with several declared dependencies: the default expand set and its order
+    gd = docs.Gen(rng, hostile=0.0, rich=0.2)
+    provs = [gd.lexicon(f'p{i}', '1', '1.1', n_syn=2, n_ent=1, ili_pool=['i1', 'i2', 'i3']) for i in range(5)]
+    dx = gd.lexicon('dx', '1', '1.1', n_syn=3, n_ent=1, ili_pool=['i1', 'i2', 'i3'], lang='de',
+                    requires=[{'id': f'p{i}', 'version': '1'} for i in (3, 0, 2)])
+    dy = gd.lexicon('dy', '1', '1.1', n_syn=2, n_ent=1, ili_pool=['i1', 'i2', 'i3'], lang='de',
+                    requires=[{'id': f'p{i}', 'version': '1'} for i in (4, 2, 1)] + [{'id': 'absent', 'version': '0'}])
+    return {'resources': [docs.resource([W['a:1'], W['e:1'], W['b:1'], m], '1.0'), docs.resource(provs + [dx, dy], '1.1')],
             'graph': g, 'corpus': ['w0', 'w1', 'amb', 'amb', 'w2', 'zzz'], 'broken': broken, 'dumpres': dumpres, 'queries': queries,
             'selections': [{}, {'lexicon': 'a:1'}, {'lexicon': 'b:1', 'expand': 'e:1'}, {'lexicon': 'b:1', 'expand': ''}, {'lang': 'en'}, {'lang': 'de'}]}
 
